@@ -273,7 +273,8 @@ pub fn gen(jura_kind: bool, seed: u64, cases: usize, flavour: &str, path: &str) 
             let bt = if long { g.rng.below(3) } else { g.rng.below(5) };
             match g.rng.below(14) {
                 0 | 1 => {
-                    let name = if g.rng.chance(1, 5) { "X" } else { *g.rng.pick(&names) };
+                    // unknown names: unrelated, and near misses of a registered name (letter case, prefix, extension)
+                    let name = if g.rng.chance(1, 5) { *g.rng.pick(&["X", "d", "e", "DD", "D1", "dE"]) } else { *g.rng.pick(&names) };
                     let op = if g.rng.chance(1, 2) { "INIT" } else { "NEWBT" };
                     g.stats.bump(op);
                     g.line(&format!("{op} {name}"));
